@@ -3,7 +3,7 @@
    round trips every dictionary value goes through (quantities: C18; equations: C19); that the objects rebuilt by the real
    readers have the original's physical content is established by the correspondence check (harness/c12.py) - see the manifest. *)
 From Coq Require Import NArith ZArith List Lia Bool.
-From Verif Require Import Num Units ReactionText ReactionTextFacts UnitText UnitTextFacts Schemas Dict DictFacts.
+From Verif Require Import Num Units ReactionText ReactionTextFacts UnitText UnitTextFacts Schemas Dict DictFacts DictRoundTrip.
 
 (* all key aliases a reader accepts are interchangeable: renaming a key into a synonym of the same field changes neither whether
    the dictionary is accepted nor the value read for any field (any schema, any dictionary) *)
@@ -37,6 +37,19 @@ Print Assumptions C12_every_field_is_read.
 Theorem C12_every_field_is_written : forallb (fun p : list str * schema => fields_written (fst p) (snd p)) writers_and_readers = true.
 Proof. exact writers_write_every_field. Qed.
 Print Assumptions C12_every_field_is_written.
+
+(* key-level round trip, for every well-formed schema (hence, by the two computations, each of the twelve): a dictionary giving every
+   present field under its primary key - what the writers emit - passes the key processing and every field reads back exactly the
+   value written, absent fields as absent *)
+Theorem C12_key_round_trip : forall (A : Type) sc (vals : list (option A)),
+  wf_schema sc = true -> length vals = length sc -> (forall syn, In syn sc -> syn <> nil) ->
+  read_fields A sc (write_fields A sc vals) = Ok vals.
+Proof. exact write_then_read. Qed.
+Print Assumptions C12_key_round_trip.
+
+Theorem C12_schemas_have_no_empty_field : forallb (fun sc : schema => forallb (fun syn => match syn with nil => false | _ => true end) sc) all_schemas = true.
+Proof. exact schemas_nonempty. Qed.
+Print Assumptions C12_schemas_have_no_empty_field.
 
 (* what the writers put into the dictionaries reads back: every quantity is written as str(UnitValue) (C18) ... *)
 Theorem C12_quantity_text : forall (F : Type) (parse_float : str -> option F) (print_float : F -> str) (zero : F),
